@@ -44,6 +44,7 @@ from .cip import (
     ULINT,
 )
 from .cip.data_types import _StructReprMeta
+from .exceptions import DataError
 
 
 __all__ = [
@@ -197,8 +198,10 @@ def StructTag(
 
         @classmethod
         def _decode(cls, stream: BytesIO):
-            stream = BytesIO(stream.read(cls.size))
-            raw = stream.getvalue()
+            raw = stream.read(cls.size)
+            if raw and len(raw) < cls.size:
+                raise DataError(f"Expected {cls.size} bytes, got {len(raw)}: {raw!r}")
+            stream = BytesIO(raw)
             values = {}
 
             for member in cls.members:
